@@ -123,6 +123,14 @@ impl Monitors {
         let evs = log.since(self.cursor);
         self.cursor += evs.len();
         for e in evs {
+            // twins (real replicas under Byzantine keys, indices beyond the committee) are never judged
+            let who = match &e {
+                Ev::QueueBlock { node, .. } | Ev::Out { node, .. } | Ev::SetState { node, .. } | Ev::Step { node, .. } | Ev::Restart { node, .. } | Ev::InboundPanic { node, .. } => *node,
+            };
+            if who >= self.c.n() {
+                self.count("events_of_twin_replicas_not_judged");
+                continue;
+            }
             match e {
                 Ev::QueueBlock { node, block, want, .. } => self.on_queue_block(node, block, want),
                 Ev::Out { node, msg, durable, .. } => self.on_out(node, msg, durable),
